@@ -245,7 +245,15 @@ def numeric(ctx, quick):
             if len(ref) >= 2:
                 Dcut = rng.randint(1, len(ref) - 1)
                 gap = ref[Dcut - 1] - ref[Dcut]
+                psi_n = psi.copy()          # the same move with normalize=True: the accumulated norm is dropped, everything else is the same
+                disc_n = psi_n.diagonalize_central_(opts_svd={'D_total': Dcut, 'tol': 1e-13}, normalize=True)
                 disc = psi.diagonalize_central_(opts_svd={'D_total': Dcut, 'tol': 1e-13}, normalize=False)
+                ctx.count('single-cut truncation:normalize=True')
+                vn = mgen.dense_state(psi_n, ops).reshape(-1)
+                vu = mgen.dense_state(psi, ops).reshape(-1)
+                if not (psi_n.factor == 1 and np.isclose(np.linalg.norm(vn), 1.0, rtol=1e-8) and np.isclose(disc_n, disc, atol=1e-10) and close(vn * np.linalg.norm(vu), vu, 1e-8)):
+                    ctx.violation('diagonalize_central_(D_total=%d, normalize=True) at cut %d of a state of norm %r: factor %r, norm %r, discarded %r; with normalize=False: norm %r, discarded %r (%s %s N=%d)' % (
+                        Dcut, cut, nv0, psi_n.factor, np.linalg.norm(vn), disc_n, np.linalg.norm(vu), disc, fam, sym, N), dict(desc0, kind='single-cut-normalize', cut=cut, D_total=Dcut))
                 kept = np.sort(np.real(psi.A[psi.pC]._data))[::-1]
                 ctx.count('single-cut truncation')
                 if gap > 1e-7:      # a degenerate multiplet at the cut may be kept whole or split by policy: only the weight is then checked
